@@ -559,6 +559,17 @@ Definition complete (e : aentry) : bool := match a_ds e with Some _ => true | No
 Definition cur_entry (s : state) (it : item) : aentry :=
   {| a_prm := st_prm s; a_start := g_istart (st_g s); a_ds := g_cur (st_g s); a_item := it |}.
 
+Definition akey (e : aentry) : params * nat * option (list (list Z)) := (a_prm e, a_start e, a_ds e).
+Definition dkey (d : params * nat * list (list Z)) : params * nat * option (list (list Z)) :=
+  let '(q, i, ds) := d in (q, i, Some ds).
+
+(* the completed iteration whose item is about to be sent *)
+Definition pend (s : state) : list (params * nat * option (list (list Z))) :=
+  match st_pos s with
+  | LSend _ _ => match g_cur (st_g s) with Some ds => [(st_prm s, g_istart (st_g s), Some ds)] | None => [] end
+  | _ => []
+  end.
+
 Record GInv (sc : list xfer) (s : state) : Prop := {
   gi_script : st_script s = skipn (g_consumed (st_g s)) sc;
   gi_le : (g_istart (st_g s) <= g_consumed (st_g s))%nat;
@@ -573,7 +584,8 @@ Record GInv (sc : list xfer) (s : state) : Prop := {
   gi_bnd : Forall (fun e => complete e = true -> (a_start e < gbound s)%nat) (g_hist (st_g s));
   gi_sorted : StronglySorted lt (map a_start (filter complete (g_hist (st_g s))));
   gi_nofail : g_fail (st_g s) = 0%nat -> g_hist (st_g s) = g_att (st_g s);
-  gi_pq : exists pre, map a_item (g_hist (st_g s)) = pre ++ st_pq s
+  gi_pq : exists pre, map a_item (g_hist (st_g s)) = pre ++ st_pq s;
+  gi_done : map akey (filter complete (g_att (st_g s))) ++ pend s = map dkey (g_done (st_g s))
 }.
 
 Lemma firstn_skipn_snoc {A} (sc : list A) i n x rest :
@@ -610,16 +622,19 @@ Qed.
 
 Lemma step_ginv_trysend sc s r s' : Inv s -> GInv sc s -> step true s (LTrySend r) = Some s' -> GInv sc s'.
 Proof.
-  intros HI [Hsc Hle Hpoll Hsub Hsend Hatt Hhist Hbnd Hsort Hnf Hpq] H.
-  unfold gbound in Hbnd. unfold step in H.
+  intros HI [Hsc Hle Hpoll Hsub Hsend Hatt Hhist Hbnd Hsort Hnf Hpq Hdn] H.
+  unfold gbound in Hbnd. unfold pend in Hdn. unfold step in H.
   destruct (st_pos s) eqn:Ep; try discriminate.
   destruct (Hsend _ _ eq_refl) as [He Hlt]. unfold cur_entry in He.
   assert (Hb' : Forall (fun e => complete e = true -> (a_start e < g_consumed (st_g s))%nat) (g_hist (st_g s)))
     by (eapply bnd_mono; [|exact Hbnd]; lia).
   destruct (st_rx s); [destruct (zlen (st_pq s) <? st_cp s)|];
     destruct (r =? _); try discriminate; injection H as H; subst s';
-    constructor; unfold gbound, cur_entry; sf; auto; try discriminate.
+    constructor; unfold gbound, cur_entry, pend; sf; auto; try discriminate.
   all: try match goal with
+    | |- map akey (filter complete (_ ++ [_])) ++ [] = _ =>
+      rewrite filter_app, map_app; cbn [filter]; unfold complete at 2; cbn [a_ds];
+      rewrite <- Hdn; destruct (g_cur (st_g s)); cbn [map akey a_prm a_start a_ds]; rewrite !app_nil_r; reflexivity
     | |- Forall (entry_ok _) (_ ++ [_]) => apply Forall_app; split; auto
     | |- Forall (fun e => complete e = true -> _) (_ ++ [_]) =>
       apply Forall_app; split; auto; constructor; [|constructor];
@@ -636,8 +651,8 @@ Qed.
 
 Lemma step_ginv_polldata sc s len s' : Inv s -> GInv sc s -> step true s (LPollData len) = Some s' -> GInv sc s'.
 Proof.
-  intros [Hprm Hlb Htb Hpbo Hbq Hscr Hpos Hw Ht Hi] [Hsc Hle Hpoll Hsub Hsend Hatt Hhist Hbnd Hsort Hnf Hpq] H.
-  unfold gbound in Hbnd. unfold pos_ok in Hpos. unfold step in H.
+  intros [Hprm Hlb Htb Hpbo Hbq Hscr Hpos Hw Ht Hi] [Hsc Hle Hpoll Hsub Hsend Hatt Hhist Hbnd Hsort Hnf Hpq Hdn] H.
+  unfold gbound in Hbnd. unfold pend in Hdn. unfold pos_ok in Hpos. unfold step in H.
   destruct (st_pos s) eqn:Ep; try discriminate.
   destruct (st_script s) as [|[d| |] rest] eqn:Es; try discriminate.
   destruct (nth_error (slots (st_prm s)) (length ds)) as [z|] eqn:En; try discriminate.
@@ -658,24 +673,25 @@ Proof.
   - apply Nat.eqb_eq in Ek. pose proof Hfit' as Hfit2. unfold nslots in Ek. rewrite Ek, firstn_all in Hfit2.
     destruct (finish_spec _ _ _ _ _ Hprm Hlb Htb Hbuf Hfit2) as [f [Hf [Hview [Hnp _]]]].
     rewrite Hf in H. injection H as H. subst s'.
-    constructor; unfold gbound, cur_entry; sf; auto; try discriminate; try lia.
+    constructor; unfold gbound, cur_entry, pend; sf; auto; try discriminate; try lia.
+    2:{ rewrite map_app. cbn [map dkey]. rewrite <- Hdn, app_nil_r. reflexivity. }
     intros it keep Hq. injection Hq as <- <-. split; [|intros _; lia].
     unfold entry_ok. cbn [a_ds a_prm a_start a_item]. split; [|split; [|split]; auto].
     unfold nslots. rewrite <- Ek. exact Hseg'.
   - injection H as H. subst s'.
-    constructor; unfold gbound, cur_entry; sf; auto; try discriminate; try lia.
+    constructor; unfold gbound, cur_entry, pend; sf; auto; try discriminate; try lia.
     intros b0 ds0 Hq. injection Hq as <- <-. split; [lia|exact Hseg'].
 Qed.
 
 Lemma step_ginv sc s l s' : Inv s -> GInv sc s -> step true s l = Some s' -> GInv sc s'.
 Proof.
-  intros HI [Hsc Hle Hpoll Hsub Hsend Hatt Hhist Hbnd Hsort Hnf Hpq] H.
-  unfold gbound in Hbnd.
+  intros HI [Hsc Hle Hpoll Hsub Hsend Hatt Hhist Hbnd Hsort Hnf Hpq Hdn] H.
+  unfold gbound in Hbnd. unfold pend in Hdn.
   destruct l;
     try (eapply step_ginv_polldata; [eassumption|constructor; eassumption|eassumption]);
     try (eapply step_ginv_trysend; [eassumption|constructor; eassumption|eassumption]);
     step_cases H.
-  all: try (constructor; unfold gbound, cur_entry in *; sf; auto; try discriminate; try congruence).
+  all: try (constructor; unfold gbound, cur_entry, pend in *; sf; auto; try discriminate; try congruence).
   all: try match goal with
     | Hs : _ :: ?l = skipn ?c ?sc |- ?l = skipn (S ?c) ?sc => symmetry; eapply skipn_S_cons; symmetry; exact Hs
     | |- Forall (fun e => complete e = true -> _) _ => eapply bnd_mono; [|exact Hbnd]; lia
@@ -690,4 +706,357 @@ Proof.
       destruct Hpq as [pre Hp]; exists (pre ++ [it]); rewrite Hp, <- app_assoc; reflexivity
     | Hq : st_pq ?s0 = [] |- exists pre, _ = pre ++ st_pq ?s0 => rewrite Hq; exact Hpq
     end.
+Qed.
+
+
+Lemma run_invs sc ls : forall s s', Inv s -> GInv sc s -> run true s ls = Some s' -> Inv s' /\ GInv sc s'.
+Proof.
+  induction ls as [|l ls IH]; intros s s' Hi Hg H; cbn [run] in H.
+  - inversion H; subst; auto.
+  - destruct (step true s l) as [s1|] eqn:E; [|discriminate].
+    eapply IH; [eapply step_inv; eassumption|eapply step_ginv; eassumption|exact H].
+Qed.
+
+Lemma reach_invs sc cp cb ls s : script_ok sc -> run true (init sc cp cb) ls = Some s -> Inv s /\ GInv sc s.
+Proof. intros Hs H. eapply run_invs; [apply inv_init, Hs|apply ginv_init|exact H]. Qed.
+
+(* ---- no mixture, order ---- *)
+
+Lemma no_mixture sc cp cb ls s : script_ok sc -> run true (init sc cp cb) ls = Some s ->
+  forall e, In e (g_hist (st_g s)) -> entry_ok sc e.
+Proof.
+  intros Hs H e He. destruct (reach_invs _ _ _ _ _ Hs H) as [_ Hg].
+  pose proof (gi_hist _ _ Hg) as Hh. rewrite Forall_forall in Hh. exact (Hh e He).
+Qed.
+
+Lemma no_mixture_ok sc cp cb ls s : script_ok sc -> run true (init sc cp cb) ls = Some s ->
+  forall e p, In e (g_hist (st_g s)) -> a_item e = IOk p ->
+  exists ds v, a_ds e = Some ds /\
+    firstn (nslots (a_prm e)) (skipn (a_start e) sc) = map XData ds /\
+    fits ds (slots (a_prm e)) /\
+    view_of p = Ok v /\ frame_item (a_prm e) ds = VOk v.
+Proof.
+  intros Hs H e p He Hp. pose proof (no_mixture _ _ _ _ _ Hs H e He) as Ho.
+  unfold entry_ok in Ho. destruct (a_ds e) as [ds|].
+  - destruct Ho as [H1 [H2 [H3 H4]]]. rewrite Hp in H3, H4. cbn [item_view] in H3, H4.
+    destruct (view_of p) as [v| |] eqn:Ev; try congruence.
+    exists ds, v. repeat split; auto.
+  - destruct Ho as [c Hc]. congruence.
+Qed.
+
+Lemma received_in_hist sc cp cb ls s : script_ok sc -> run true (init sc cp cb) ls = Some s ->
+  forall it, In it (st_pq s) -> exists e, In e (g_hist (st_g s)) /\ a_item e = it.
+Proof.
+  intros Hs H it Hi. destruct (reach_invs _ _ _ _ _ Hs H) as [_ Hg].
+  destruct (gi_pq _ _ Hg) as [pre Hp].
+  assert (Hin : In it (map a_item (g_hist (st_g s)))) by (rewrite Hp; apply in_or_app; auto).
+  apply in_map_iff in Hin. destruct Hin as [e [He1 He2]]. exists e; auto.
+Qed.
+
+Lemma order_no_dup sc cp cb ls s : script_ok sc -> run true (init sc cp cb) ls = Some s ->
+  StronglySorted lt (map a_start (filter complete (g_hist (st_g s)))).
+Proof. intros Hs H. destruct (reach_invs _ _ _ _ _ Hs H) as [_ Hg]. exact (gi_sorted _ _ Hg). Qed.
+
+Lemma delivered_if_room sc cp cb ls s : script_ok sc -> run true (init sc cp cb) ls = Some s ->
+  g_fail (st_g s) = 0%nat -> g_hist (st_g s) = g_att (st_g s).
+Proof. intros Hs H. destruct (reach_invs _ _ _ _ _ Hs H) as [_ Hg]. exact (gi_nofail _ _ Hg). Qed.
+
+Lemma no_loop_panic sc cp cb ls s : script_ok sc -> run true (init sc cp cb) ls = Some s -> st_pos s <> LPanic.
+Proof.
+  intros Hs H. destruct (reach_invs _ _ _ _ _ Hs H) as [Hi _]. pose proof (i_pos _ Hi) as Hp.
+  unfold pos_ok in Hp. intros E. rewrite E in Hp. exact Hp.
+Qed.
+
+(* ---- the loop never blocks ---- *)
+
+Definition loop_active (s : state) : bool :=
+  match st_pos s with LIdle | LPanic => false | _ => true end.
+
+Lemma skipn_nonempty {A} (l : list A) n : (n < length l)%nat -> exists x r, skipn n l = x :: r.
+Proof.
+  revert n. induction l as [|y l IH]; intros n H; cbn [length] in H; [lia|].
+  destruct n as [|n]; cbn [skipn]; [eauto|]. apply IH. lia.
+Qed.
+
+Lemma nth_error_lt {A} (l : list A) n : (n < length l)%nat -> exists x, nth_error l n = Some x.
+Proof.
+  intros H. destruct (nth_error l n) eqn:E; [eauto|]. apply nth_error_None in E. lia.
+Qed.
+
+Lemma never_blocks s : Inv s -> loop_active s = true ->
+  exists l s', is_loop_label l = true /\ step true s l = Some s'.
+Proof.
+  intros [Hprm Hlb Htb Hpbo Hbq Hsc Hpos Hw Ht Hi] Ha.
+  unfold loop_active in Ha. unfold pos_ok in Hpos.
+  destruct (st_pos s) eqn:Ep; try discriminate.
+  - (* LHead *)
+    destruct (st_cancel s) eqn:Ec.
+    + exists (LCancel 0). unfold step. rewrite Ep, Ec. cbn [Z.eqb is_loop_label]. destruct (st_pbo s); eauto.
+    + exists (LCancel 1). unfold step. rewrite Ep, Ec. cbn. eauto.
+    + exists (LCancel 0). unfold step. rewrite Ep, Ec. cbn [Z.eqb is_loop_label]. destruct (st_pbo s); eauto.
+    + exists (LCancel 2). unfold step. rewrite Ep, Ec. cbn. eauto.
+  - (* LBuf *)
+    destruct (st_bq s) eqn:Eb.
+    + exists (LBackRecv 1). unfold step. rewrite Ep, Eb. cbn. eauto.
+    + exists (LBackRecv 0). unfold step. rewrite Ep, Eb. cbn. eauto.
+  - exists LPoolNew. unfold step. rewrite Ep. cbn. eauto.
+  - (* LSubmit *)
+    destruct Hpos as [_ [Hk _]]. destruct (nth_error_lt (slots (st_prm s)) k Hk) as [sz Hsz].
+    exists (LSubmitOk sz). unfold step. rewrite Ep, Hsz, Z.eqb_refl. cbn. eauto.
+  - (* LPoll *)
+    destruct Hpos as [_ [Hk [_ Hpend]]].
+    destruct (nth_error_lt (slots (st_prm s)) (length ds) Hk) as [sz Hsz].
+    destruct (skipn_nonempty (slots (st_prm s)) (length ds) Hk) as [x [r Hr]]. rewrite Hr in Hpend.
+    destruct (st_script s) as [|[d|c|] rest] eqn:Es.
+    + exists LPollTimeout. unfold step. rewrite Ep, Hsz, Es. cbn. eauto.
+    + destruct (zlen d <=? sz) eqn:El.
+      * exists (LPollData (zlen d)). unfold step. rewrite Ep, Es, Hsz, Hpend, Z.eqb_refl, El. cbn [andb is_loop_label].
+        destruct (length (ds ++ [d]) =? nslots (st_prm s))%nat; [|eauto].
+        destruct (finish true _ _ _ _ _); eauto.
+      * exists (LPollErr 7). unfold step. rewrite Ep, Es, Hsz, Hpend. apply Z.leb_gt in El.
+        destruct (sz <? zlen d) eqn:El'; [|apply Z.ltb_ge in El'; lia]. cbn. eauto.
+    + exists (LPollErr c). unfold step. rewrite Ep, Es, Hsz, Hpend, Z.eqb_refl. cbn. eauto.
+    + exists LPollTimeout. unfold step. rewrite Ep, Hsz, Es. cbn. eauto.
+  - (* LSend *)
+    destruct (st_rx s) eqn:Er; [destruct (zlen (st_pq s) <? st_cp s) eqn:Eq|].
+    + exists (LTrySend 0). unfold step. rewrite Ep, Er, Eq. cbn. eauto.
+    + exists (LTrySend 1). unfold step. rewrite Ep, Er, Eq. cbn. eauto.
+    + exists (LTrySend 2). unfold step. rewrite Ep, Er. cbn. eauto.
+  - exists (LPoolDrop (zlen (st_pending s))). unfold step. rewrite Ep, Z.eqb_refl. cbn. eauto.
+Qed.
+
+
+(* ---- stop ---- *)
+
+Definition rank (s : state) : nat :=
+  let n := nslots (st_prm s) in
+  match st_pos s with
+  | LIdle | LPanic | LHead => 0
+  | LDrop _ => 1
+  | LSend _ _ => 2
+  | LPoll _ ds => 2 + (n - length ds)
+  | LSubmit _ k => 2 + n + (n - k)
+  | LNew _ => 3 + 2 * n
+  | LBuf => 4 + 2 * n
+  end.
+
+Fixpoint nloop (ls : list label) : nat :=
+  match ls with [] => 0 | l :: r => (if is_loop_label l then 1 else 0) + nloop r end.
+
+Lemma rank_bound s : (rank s <= 2 * nslots (st_prm s) + 4)%nat.
+Proof. unfold rank. destruct (st_pos s); lia. Qed.
+
+Lemma loop_step_rank s l s' : Inv s -> step true s l = Some s' -> is_loop_label l = true ->
+  st_pos s <> LHead ->
+  (rank s' < rank s)%nat /\ st_cancel s' = st_cancel s.
+Proof.
+  intros [Hprm Hlb Htb Hpbo Hbq Hsc Hpos Hw Ht Hi] H Hl Hh.
+  unfold pos_ok in Hpos. unfold rank.
+  destruct l; try discriminate; step_cases H; try congruence.
+  all: sf; try (split; [lia|reflexivity]).
+  all: try match goal with
+    | |- context [if ?c then _ else _] => destruct c eqn:?
+    end; sf; try (split; [lia|reflexivity]).
+  all: try (rewrite app_length; cbn [length]).
+  all: try (destruct Hpos as [? [? ?]]; split; [lia|reflexivity]).
+  all: try (pose proof (nslots_pos (st_prm s)); split; [lia|reflexivity]).
+Qed.
+
+Lemma head_step s l s' : st_pos s = LHead -> st_cancel s = CWaiting -> pos_ok s ->
+  step true s l = Some s' -> is_loop_label l = true ->
+  l = LCancel 1 /\ st_pos s' = LIdle /\ st_pending s' = [] /\ st_cancel s' = CTaken /\ st_ctl s' = st_ctl s.
+Proof.
+  intros Hp Hc Hpos H Hl. unfold pos_ok in Hpos. rewrite Hp in Hpos.
+  destruct l; try discriminate; unfold step in H; rewrite Hp in H; try discriminate.
+  rewrite Hc in H. destruct (r =? 1) eqn:E; [|discriminate]. apply Z.eqb_eq in E. subst r.
+  injection H as H. subst s'. sf. auto.
+Qed.
+
+Lemma env_step s l s' : Inv s -> step true s l = Some s' -> is_loop_label l = false ->
+  st_cancel s = CWaiting ->
+  st_pos s' = st_pos s /\ st_prm s' = st_prm s /\ st_cancel s' = CWaiting.
+Proof.
+  intros HI H Hl Hc. pose proof (i_wait _ HI Hc) as Hk.
+  destruct l; try discriminate; step_cases H; sf; try congruence; auto.
+Qed.
+
+Lemma stop_bounded ls : forall s s', Inv s -> st_cancel s = CWaiting -> run true s ls = Some s' ->
+  (rank s < nloop ls)%nat ->
+  exists ls1 ls2 s0 s1, ls = ls1 ++ LCancel 1 :: ls2 /\ (nloop ls1 <= rank s)%nat /\
+    run true s ls1 = Some s0 /\ step true s0 (LCancel 1) = Some s1 /\
+    st_pos s1 = LIdle /\ st_pending s1 = [] /\ st_cancel s1 = CTaken.
+Proof.
+  induction ls as [|l ls IH]; intros s s' HI Hc H Hn; cbn [nloop run] in *; [lia|].
+  destruct (step true s l) as [sa|] eqn:E; [|discriminate].
+  pose proof (step_inv _ _ _ HI E) as HIa.
+  destruct (is_loop_label l) eqn:El.
+  - destruct (st_pos s) eqn:Ep.
+    3:{ destruct (head_step _ _ _ Ep Hc (i_pos _ HI) E El) as [-> [H1 [H2 [H3 _]]]].
+        exists [], ls, s, sa. cbn [app nloop run]. repeat split; auto. lia. }
+    all: assert (Hnh : st_pos s <> LHead) by congruence;
+      destruct (loop_step_rank _ _ _ HI E El Hnh) as [Hr Hca];
+      rewrite Hc in Hca;
+      destruct (IH sa s' HIa Hca H ltac:(lia)) as [ls1 [ls2 [s0 [s1 [-> [Hb [Hr1 Hrest]]]]]]];
+      exists (l :: ls1), ls2, s0, s1; cbn [app nloop run]; rewrite E, El;
+      (split; [reflexivity|]); (split; [lia|]); (split; [exact Hr1|exact Hrest]).
+  - destruct (env_step _ _ _ HI E El Hc) as [Hp [Hq Hca]].
+    assert (Hrk : rank sa = rank s) by (unfold rank; rewrite Hp, Hq; reflexivity).
+    destruct (IH sa s' HIa Hca H ltac:(lia)) as [ls1 [ls2 [s0 [s1 [-> [Hb [Hr1 Hrest]]]]]]].
+    exists (l :: ls1), ls2, s0, s1. cbn [app nloop run]. rewrite E, El.
+    split; [reflexivity|]. split; [lia|]. split; [exact Hr1|exact Hrest].
+Qed.
+
+(* while no loop thread is inside `run` nothing is submitted, polled or sent, the ledger stays
+   as it is, and only a start brings a loop back *)
+Lemma stopped_quiet s l s' : st_pos s = LIdle -> step true s l = Some s' ->
+  is_loop_label l = false /\ st_pending s' = st_pending s /\ g_hist (st_g s') = g_hist (st_g s) /\
+  (st_pos s' = LIdle \/ exists q, l = KStart q).
+Proof.
+  intros Hp H. destruct l; unfold step in H; rewrite ?Hp in H; try discriminate.
+  all: step_cases H; sf; repeat split; auto; eauto.
+Qed.
+
+Lemma stop_returns s : Inv s -> st_cancel s = CTaken ->
+  exists s', step true s KStopRet = Some s' /\ st_ctl s' = KIdle /\ st_cancel s' = CNone /\ st_pos s' = LIdle.
+Proof.
+  intros HI Hc. destruct (i_taken _ HI Hc) as [Hk Hp]. unfold step. rewrite Hk, Hc.
+  eexists. split; [reflexivity|]. sf. auto.
+Qed.
+
+Lemma restart s q : Inv s -> st_ctl s = KIdle -> st_cancel s = CNone -> prm_ok q = true ->
+  exists s', step true s (KStart q) = Some s' /\ Inv s' /\ st_pos s' = LHead /\ st_prm s' = q /\
+    st_pending s' = [] /\ st_pbo s' = None /\ st_lbuf s' = zeros (q_leader q) /\
+    st_tbuf s' = zeros (q_trailer q) /\ st_cancel s' = CNone.
+Proof.
+  intros HI Hk Hc Hq. pose proof (i_idle _ HI Hk Hc) as Hp.
+  pose proof (i_pos _ HI) as Hpos. unfold pos_ok in Hpos. rewrite Hp in Hpos.
+  assert (E : exists s', step true s (KStart q) = Some s') by (unfold step; rewrite Hp, Hk, Hq; eauto).
+  destruct E as [s' E]. exists s'. split; [exact E|]. split; [exact (step_inv _ _ _ HI E)|].
+  unfold step in E. rewrite Hp, Hk, Hq in E. injection E as E. subst s'. sf. repeat split; auto.
+Qed.
+
+(* ---- the pinned code (before the two fix: commits) violates no_mixture -------------------------- *)
+
+Definition wit_trailer_script : list xfer := [XData [85; 51; 86; 76; 0; 0; 28; 0; 1; 0; 0; 0; 0; 0; 0; 0; 0; 0; 0; 64; 1; 0; 0; 0; 0; 0; 0; 0]; XData [1; 2; 3; 4]; XData [5; 6; 7; 8]; XData [85; 51; 86; 84; 0; 0; 32; 0; 1; 0; 0; 0; 0; 0; 0; 0; 0; 0; 0; 0; 8; 0; 0; 0; 0; 0; 0; 0; 0; 0; 0; 0]; XData [85; 51; 86; 76; 0; 0; 28; 0; 2; 0; 0; 0; 0; 0; 0; 0; 0; 0; 0; 64; 2; 0; 0; 0; 0; 0; 0; 0]; XData [9; 9; 9; 9]; XData [8; 8; 8; 8]; XData []].
+Definition wit_trailer_labels : list label := [KStart (Build_params 28 32 4 2 0 0); LCancel 0; LBackRecv 1; LPoolNew; LSubmitOk 28; LSubmitOk 4; LSubmitOk 4; LSubmitOk 32; LPollData 28; LPollData 4; LPollData 4; LPollData 32; LTrySend 0; LPoolDrop 0; LCancel 0; LBackRecv 1; LPoolNew; LSubmitOk 28; LSubmitOk 4; LSubmitOk 4; LSubmitOk 32; LPollData 28; LPollData 4; LPollData 4; LPollData 0; LTrySend 0; LPoolDrop 0].
+Definition wit_leader_script : list xfer := [XData [85; 51; 86; 76; 0; 0; 28; 0; 1; 0; 0; 0; 0; 0; 0; 0; 0; 0; 0; 64; 1; 0; 0; 0; 0; 0; 0; 0]; XData [1; 2; 3; 4]; XData [5; 6; 7; 8]; XData [85; 51; 86; 84; 0; 0; 32; 0; 1; 0; 0; 0; 0; 0; 0; 0; 0; 0; 0; 0; 8; 0; 0; 0; 0; 0; 0; 0; 0; 0; 0; 0]; XData []; XData [9; 9; 9; 9]; XData [8; 8; 8; 8]; XData [85; 51; 86; 84; 0; 0; 32; 0; 2; 0; 0; 0; 0; 0; 0; 0; 0; 0; 0; 0; 8; 0; 0; 0; 0; 0; 0; 0; 0; 0; 0; 0]].
+Definition wit_leader_labels : list label := [KStart (Build_params 28 32 4 2 0 0); LCancel 0; LBackRecv 1; LPoolNew; LSubmitOk 28; LSubmitOk 4; LSubmitOk 4; LSubmitOk 32; LPollData 28; LPollData 4; LPollData 4; LPollData 32; LTrySend 0; LPoolDrop 0; LCancel 0; LBackRecv 1; LPoolNew; LSubmitOk 28; LSubmitOk 4; LSubmitOk 4; LSubmitOk 32; LPollData 0; LPollData 4; LPollData 4; LPollData 32; LTrySend 0; LPoolDrop 0].
+Definition wit_hole_script : list xfer := [XData [85; 51; 86; 76; 0; 0; 28; 0; 1; 0; 0; 0; 0; 0; 0; 0; 0; 0; 0; 64; 1; 0; 0; 0; 0; 0; 0; 0]; XData [1; 2; 3; 4]; XData [5; 6; 7; 8]; XData [85; 51; 86; 84; 0; 0; 32; 0; 1; 0; 0; 0; 0; 0; 0; 0; 0; 0; 0; 0; 8; 0; 0; 0; 0; 0; 0; 0; 0; 0; 0; 0]; XData [85; 51; 86; 76; 0; 0; 28; 0; 2; 0; 0; 0; 0; 0; 0; 0; 0; 0; 0; 64; 2; 0; 0; 0; 0; 0; 0; 0]; XData [9; 9]; XData [8; 8; 8; 8]; XData [85; 51; 86; 84; 0; 0; 32; 0; 2; 0; 0; 0; 0; 0; 0; 0; 0; 0; 0; 0; 6; 0; 0; 0; 0; 0; 0; 0; 0; 0; 0; 0]].
+Definition wit_hole_labels : list label := [KStart (Build_params 28 32 4 2 0 0); LCancel 0; LBackRecv 1; LPoolNew; LSubmitOk 28; LSubmitOk 4; LSubmitOk 4; LSubmitOk 32; LPollData 28; LPollData 4; LPollData 4; LPollData 32; LTrySend 0; LPoolDrop 0; LCancel 0; LBackRecv 1; LPoolNew; LSubmitOk 28; LSubmitOk 4; LSubmitOk 4; LSubmitOk 32; LPollData 28; LPollData 2; LPollData 4; LPollData 32; LTrySend 0; LPoolDrop 0].
+
+Definition mixture_in (sc : list xfer) (ls : list label) : Prop :=
+  exists s e p ds, run false (init sc 4 4) ls = Some s /\ In e (g_hist (st_g s)) /\
+    a_item e = IOk p /\ a_ds e = Some ds /\
+    firstn (nslots (a_prm e)) (skipn (a_start e) sc) = map XData ds /\
+    item_view (IOk p) <> frame_item (a_prm e) ds.
+
+Ltac mixture_witness :=
+  unfold mixture_in;
+  match goal with |- context [run false ?i ?l] =>
+    let r := eval vm_compute in (run false i l) in
+    match r with
+    | Some ?s =>
+      exists s;
+      let h := eval vm_compute in (nth 1 (g_hist (st_g s)) {| a_prm := Build_params 0 0 0 0 0 0; a_start := 0%nat; a_ds := None; a_item := IErr 0 |}) in
+      exists h;
+      match h with {| a_prm := _; a_start := _; a_ds := Some ?ds; a_item := IOk ?p |} =>
+        exists p, ds;
+        split; [vm_compute; reflexivity|];
+        split; [vm_compute; right; left; reflexivity|];
+        split; [reflexivity|]; split; [reflexivity|];
+        split; [vm_compute; reflexivity|];
+        vm_compute; discriminate
+      end
+    end
+  end.
+
+(* a trailer transfer that delivers nothing: frame 2 is handed over with the trailer of frame 1 *)
+Lemma no_mixture_v0_refuted_trailer : mixture_in wit_trailer_script wit_trailer_labels.
+Proof. mixture_witness. Qed.
+
+(* a leader transfer that delivers nothing: the payload of frame 2 under the leader of frame 1 *)
+Lemma no_mixture_v0_refuted_leader : mixture_in wit_leader_script wit_leader_labels.
+Proof. mixture_witness. Qed.
+
+(* a short payload transfer followed by a full one: a hole inside the valid payload size *)
+Lemma no_mixture_v0_refuted_hole : mixture_in wit_hole_script wit_hole_labels.
+Proof. mixture_witness. Qed.
+
+(* the same executions on the repaired code: accepted, the second frame is reported as an error *)
+Lemma fixed_rejects_witnesses :
+  forall sc ls, In (sc, ls) [(wit_trailer_script, wit_trailer_labels); (wit_leader_script, wit_leader_labels);
+                             (wit_hole_script, wit_hole_labels)] ->
+  exists s, run true (init sc 4 4) ls = Some s /\ map a_item (skipn 1 (g_hist (st_g s))) = [IErr C_INVALID_PAYLOAD].
+Proof.
+  intros sc ls [H|[H|[H|[]]]]; inversion H; subst; eexists; (split; [vm_compute; reflexivity|vm_compute; reflexivity]).
+Qed.
+
+(* every iteration in which all transfers completed ends in one try_send of the item of its frame;
+   when no try_send failed all of them are in the payload channel's history *)
+Lemma all_attempted sc cp cb ls s : script_ok sc -> run true (init sc cp cb) ls = Some s ->
+  forall q i ds, In (q, i, ds) (g_done (st_g s)) ->
+  (exists e, In e (g_att (st_g s)) /\ a_prm e = q /\ a_start e = i /\ a_ds e = Some ds /\
+             item_view (a_item e) = frame_item q ds) \/
+  (exists it keep, st_pos s = LSend it keep /\ st_prm s = q /\ g_istart (st_g s) = i /\
+             g_cur (st_g s) = Some ds /\ item_view it = frame_item q ds).
+Proof.
+  intros Hs H q i ds Hin. destruct (reach_invs _ _ _ _ _ Hs H) as [_ Hg].
+  assert (Hk : In (q, i, Some ds) (map dkey (g_done (st_g s)))).
+  { apply in_map_iff. exists (q, i, ds). split; [reflexivity|exact Hin]. }
+  rewrite <- (gi_done _ _ Hg) in Hk. apply in_app_or in Hk. destruct Hk as [Hk|Hk].
+  - left. apply in_map_iff in Hk. destruct Hk as [e [He1 He2]]. apply filter_In in He2.
+    destruct He2 as [He2 _]. unfold akey in He1. inversion He1; subst.
+    exists e. repeat split; auto.
+    pose proof (gi_att _ _ Hg) as Ha. rewrite Forall_forall in Ha. specialize (Ha e He2).
+    unfold entry_ok in Ha. rewrite H3 in Ha. tauto.
+  - right. unfold pend in Hk. destruct (st_pos s) eqn:Ep; try contradiction.
+    destruct (g_cur (st_g s)) as [ds'|] eqn:Ec; [|contradiction].
+    destruct Hk as [Hk|[]]. inversion Hk; subst.
+    exists it, keep. repeat split; auto.
+    destruct (gi_send _ _ Hg _ _ Ep) as [He _]. unfold entry_ok, cur_entry in He.
+    cbn [a_ds a_prm a_item] in He. rewrite Ec in He. tauto.
+Qed.
+
+(* ---- statements over executions from the initial state ------------------------------------------ *)
+
+Lemma never_blocks_reach sc cp cb ls s : script_ok sc -> run true (init sc cp cb) ls = Some s ->
+  loop_active s = true -> exists l s', is_loop_label l = true /\ step true s l = Some s'.
+Proof. intros Hs H. destruct (reach_invs _ _ _ _ _ Hs H) as [Hi _]. now apply never_blocks. Qed.
+
+Lemma stop_bounded_reach sc cp cb ls0 s : script_ok sc -> run true (init sc cp cb) ls0 = Some s ->
+  st_cancel s = CWaiting ->
+  forall ls s', run true s ls = Some s' -> (2 * nslots (st_prm s) + 4 < nloop ls)%nat ->
+  exists ls1 ls2 s0 s1, ls = ls1 ++ LCancel 1 :: ls2 /\ (nloop ls1 <= 2 * nslots (st_prm s) + 4)%nat /\
+    run true s ls1 = Some s0 /\ step true s0 (LCancel 1) = Some s1 /\
+    st_pos s1 = LIdle /\ st_pending s1 = [] /\ st_cancel s1 = CTaken.
+Proof.
+  intros Hs H Hc ls s' Hr Hn. destruct (reach_invs _ _ _ _ _ Hs H) as [Hi _].
+  pose proof (rank_bound s) as Hb.
+  destruct (stop_bounded ls s s' Hi Hc Hr ltac:(lia)) as [ls1 [ls2 [s0 [s1 [H1 [H2 H3]]]]]].
+  exists ls1, ls2, s0, s1. split; [exact H1|]. split; [lia|exact H3].
+Qed.
+
+Lemma stop_returns_reach sc cp cb ls s : script_ok sc -> run true (init sc cp cb) ls = Some s ->
+  st_cancel s = CTaken ->
+  exists s', step true s KStopRet = Some s' /\ st_ctl s' = KIdle /\ st_cancel s' = CNone /\ st_pos s' = LIdle.
+Proof. intros Hs H. destruct (reach_invs _ _ _ _ _ Hs H) as [Hi _]. now apply stop_returns. Qed.
+
+Lemma restart_reach sc cp cb ls s q : script_ok sc -> run true (init sc cp cb) ls = Some s ->
+  st_ctl s = KIdle -> st_cancel s = CNone -> prm_ok q = true ->
+  exists s', run true (init sc cp cb) (ls ++ [KStart q]) = Some s' /\ st_pos s' = LHead /\ st_prm s' = q /\
+    st_pending s' = [] /\ st_pbo s' = None /\ st_lbuf s' = zeros (q_leader q) /\
+    st_tbuf s' = zeros (q_trailer q) /\ st_cancel s' = CNone.
+Proof.
+  intros Hs H Hk Hc Hq. destruct (reach_invs _ _ _ _ _ Hs H) as [Hi _].
+  destruct (restart s q Hi Hk Hc Hq) as [s' [E [_ R]]]. exists s'. split; [|exact R].
+  clear -H E. revert H. generalize (init sc cp cb). induction ls as [|l ls IH]; intros s0 H; cbn [app run] in *.
+  - inversion H; subst. rewrite E. reflexivity.
+  - destruct (step true s0 l); [apply IH, H|discriminate].
+Qed.
+
+Lemma ledger_empty_when_idle sc cp cb ls s : script_ok sc -> run true (init sc cp cb) ls = Some s ->
+  (st_pos s = LIdle \/ st_pos s = LHead) -> st_pending s = [].
+Proof.
+  intros Hs H Hp. destruct (reach_invs _ _ _ _ _ Hs H) as [Hi _]. pose proof (i_pos _ Hi) as Hpos.
+  unfold pos_ok in Hpos. destruct Hp as [Hp|Hp]; rewrite Hp in Hpos; exact Hpos.
 Qed.
